@@ -156,7 +156,13 @@ def step (_ : Unit) (ts : List String) : Unit × Verdict × List String :=
     | some (jv, _) =>
       let model := match inOfJ jv with | some m => s!"ok {inText m}" | none => "err"
       let notes := ["case", "in", if impl.startsWith "ok A" then "in-announce" else if impl.startsWith "ok S" then "in-scrape" else "in-rejected"]
+      -- the value is exactly the encoding of a message (what the writer produces for it): the round-trip clause
+      -- of the property says the decoder must give that message back
+      let isEncodingOf := match inOfJ jv with
+        | some m => renderSorted (inToJ m) == renderSorted jv
+        | none => false
       if impl.startsWith "TEXT-BINARY-DIFFER" then ((), .specfail "text and binary frames decode differently", notes)
+      else if isEncodingOf && model != impl then ((), .specfail s!"the encoding of a message does not decode back to it: expected {model}", notes)
       else if model ≠ impl then ((), .mismatch s!"model={model}", notes) else ((), .ok, notes)
     | none => ((), .bad "J", [])
   | ["ins", m] =>
@@ -176,7 +182,11 @@ def step (_ : Unit) (ts : List String) : Unit × Verdict × List String :=
     | some (jv, _) =>
       let model := match outOfJ jv with | some m => s!"ok {outText m}" | none => "err"
       let notes := ["case", "out", if impl.startsWith "ok" then "out-accepted" else "out-rejected"]
+      let isEncodingOf := match outOfJ jv with
+        | some m => renderSorted (outToJ m) == renderSorted jv
+        | none => false
       if impl.startsWith "TEXT-BINARY-DIFFER" then ((), .specfail "text and binary frames decode differently", notes)
+      else if isEncodingOf && model != impl then ((), .specfail s!"the encoding of a message does not decode back to it: expected {model}", notes)
       else if model ≠ impl then ((), .mismatch s!"model={model}", notes) else ((), .ok, notes)
     | none => ((), .bad "J", [])
   | ["outs", m] =>
